@@ -16,6 +16,7 @@ import (
 	"runtime"
 	"strings"
 	"sync"
+	"sync/atomic"
 	"testing"
 	"time"
 
@@ -187,7 +188,7 @@ type run struct {
 	draining  bool
 	drainCh   chan struct{}
 	bg        sync.WaitGroup // closers and responders
-	ntFault   bool
+	started   atomic.Bool
 }
 
 type binding struct {
@@ -205,6 +206,9 @@ func dispatch(c *jsonrpc2.Connection, point string) {
 }
 
 func (r *run) hook(s *side, point string) {
+	if !r.started.Load() { // Dial runs on the controller's goroutine: no script before the history starts
+		return
+	}
 	key := s.name + "|" + point
 	r.mu.Lock()
 	k := r.hookCount[key]
@@ -374,22 +378,24 @@ func (r *run) respond(s *side, q asyncReq) {
 
 // ---- quiescence -------------------------------------------------------------------------------------------
 
-var blockedStates = []string{"chan receive", "chan send", "select", "semacquire", "sync.Mutex.Lock", "sync.RWMutex", "sync.Cond.Wait", "sync.WaitGroup.Wait",
-	"finalizer wait", "GC worker", "GC sweep", "GC scavenge", "force gc", "trace reader", "debug call"}
+var blockedStates = []string{"chan receive", "chan send", "select", "sync.Mutex.Lock", "sync.RWMutex", "sync.Cond.Wait", "sync.WaitGroup.Wait"}
 
 var dumpBuf = make([]byte, 4<<20)
 
-// quiesced reports whether every goroutine other than the caller is blocked on a channel, a
-// lock or a condition (taken from one stop-the-world goroutine dump): nothing can happen any
-// more unless the caller acts.
-func quiesced() (bool, string) {
+// snapshot takes one stop-the-world goroutine dump and reports whether every goroutine other
+// than the caller is blocked on a channel, a lock or a condition. The state "semacquire" is
+// ambiguous (a goroutine that wants to start a GC cycle waits on a runtime semaphore while the
+// dump holds the world): it counts as blocked only when the goroutine sits in package sync.
+func snapshot() (quiet bool, sig string, dump string) {
 	n := runtime.Stack(dumpBuf, true)
 	if n >= len(dumpBuf) {
-		return false, ""
+		return false, "", ""
 	}
-	dump := dumpBuf[:n]
+	d := dumpBuf[:n]
+	lines := bytes.Split(d, []byte("\n"))
 	first := true
-	for _, line := range bytes.Split(dump, []byte("\n")) {
+	var b strings.Builder
+	for i, line := range lines {
 		if !bytes.HasPrefix(line, []byte("goroutine ")) || !bytes.HasSuffix(line, []byte("]:")) {
 			continue
 		}
@@ -397,20 +403,47 @@ func quiesced() (bool, string) {
 			first = false
 			continue
 		}
-		i := bytes.IndexByte(line, '[')
-		state := string(line[i+1 : len(line)-2])
+		j := bytes.IndexByte(line, '[')
+		state := string(line[j+1 : len(line)-2])
+		top := ""
+		if i+1 < len(lines) {
+			top = string(lines[i+1])
+		}
 		ok := false
-		for _, b := range blockedStates {
-			if strings.HasPrefix(state, b) {
+		for _, s := range blockedStates {
+			if strings.HasPrefix(state, s) {
 				ok = true
 				break
 			}
 		}
-		if !ok {
-			return false, ""
+		if strings.HasPrefix(state, "semacquire") && strings.HasPrefix(top, "sync.runtime_Semacquire") {
+			ok = true
 		}
+		if !ok {
+			return false, "", ""
+		}
+		b.Write(line[:j])
+		b.WriteString(top)
+		b.WriteByte(';')
 	}
-	return true, string(dump)
+	return true, b.String(), string(d)
+}
+
+// quiesced: two identical quiescent snapshots with yields in between — nothing can happen any
+// more unless the caller acts.
+func quiesced() (bool, string) {
+	q, sig, _ := snapshot()
+	if !q {
+		return false, ""
+	}
+	for i := 0; i < 8; i++ {
+		runtime.Gosched()
+	}
+	q2, sig2, dump := snapshot()
+	if !q2 || sig != sig2 {
+		return false, ""
+	}
+	return true, dump
 }
 
 const hardCap = 60 * time.Second
@@ -445,8 +478,8 @@ func waitUntil(cond func() bool) (ok bool, dump string, capped bool) {
 
 type info struct {
 	nontrivial, faults, valve bool
-	calls, cancels           int
-	outcomes                 map[string]int
+	calls, cancels            int
+	outcomes                  map[string]int
 }
 
 func clip(s string, n int) string {
@@ -519,6 +552,7 @@ func execute(c Case) (v *vk.Verdict, in info, capped bool) {
 		}
 	}
 
+	r.started.Store(true)
 	// client goroutines
 	var clients sync.WaitGroup
 	clientsDone := make(chan struct{})
@@ -674,10 +708,10 @@ func execute(c Case) (v *vk.Verdict, in info, capped bool) {
 		}
 		if cp {
 			r.drain()
-			return vk.Bad("no-quiescence", "calls neither complete nor does the process become quiescent within %v; goroutines:\n%s", hardCap, clip(dump, 6000)), in, true
+			return vk.Bad("no-quiescence", "calls neither complete nor does the process become quiescent within %v; goroutines:\n%s", hardCap, clip(dump, 30000)), in, true
 		}
 		if drained {
-			return vk.Bad("await-stall", "every goroutine is blocked, all handlers have been released and answered, yet %s; goroutines:\n%s", r.unreturned(), clip(dump, 6000)), in, false
+			return vk.Bad("await-stall", "every goroutine is blocked, all handlers have been released and answered, yet %s; goroutines:\n%s", r.unreturned(), clip(dump, 30000)), in, false
 		}
 		drained = true
 		r.drain()
@@ -705,10 +739,10 @@ func execute(c Case) (v *vk.Verdict, in info, capped bool) {
 		sa.rwc.Close()
 		sb.rwc.Close()
 		if cp {
-			return vk.Bad("no-quiescence", "Close neither returns nor does the process become quiescent within %v; goroutines:\n%s", hardCap, clip(dump, 6000)), in, true
+			return vk.Bad("no-quiescence", "Close neither returns nor does the process become quiescent within %v; goroutines:\n%s", hardCap, clip(dump, 30000)), in, true
 		}
 		return vk.Bad("close-stall", "every goroutine is blocked, no call and no handler is outstanding, yet Close has not returned (a: %+v, b: %+v); goroutines:\n%s",
-			sa.conn.VerifState(), sb.conn.VerifState(), clip(dump, 6000)), in, false
+			sa.conn.VerifState(), sb.conn.VerifState(), clip(dump, 30000)), in, false
 	}
 	return r.judge(&in), in, capped
 }
